@@ -1,6 +1,7 @@
 SPECIFICATION SimSpec
 CONSTANTS
   WorkerCpus <- S2_Workers
+  LateWorkers <- S2_Late
   WorkerGroup <- S2_Groups
   WorkerLife <- S2_Life
   MaxTicks = 0
